@@ -36,7 +36,7 @@ C = {
    "~2400 models x versions {1,2,3} x 2 output distributions/node-form policies, opened in 9 container kinds (Vec, slice, Cow, Box, Arc newtype, mmap, map_data, Map/Set) and put through a full query battery incl. an enumeration through the low-level node interface and cross-version set operations; containers whose data is swapped through map_data for different well-formed bytes of equal length (other content, other version); 40 golden files; header sweep for the required error classes incl. version numbers that only look supported after truncation; the command line reader `fst range -o` over reference-encoded files of every version (incl. the 32..35-byte files).",
    "Inputs both too short and of unsupported version may report either error; encoder output is validated by the decoder before use.", "DESIGN.md#c10"),
  "C11": (True, "fault_enumeration", "event-log monitor on fault-injecting sinks: every write-call index x error kinds (incl. io::Errors with structured payloads) / zero-length accept / flush failure, directly and through BufWriter",
-   "The sink logs which builder call was in progress when the injected fault happened; that call must return Err(Io) (no panic, no Ok, no other error); sessions that never reach the fault must deliver and flush every byte; faults at the start and in the middle of a logical write, device-full sinks, structured error payloads, an output above 64 KiB; command line builds writing to a pipe whose reader went away or to /dev/full must not exit 0.",
+   "The sink logs which builder call was in progress when the injected fault happened; that call must return Err(Io) (no panic, no Ok, no other error); sessions that never reach the fault must deliver and flush every byte; faults at the start and in the middle of a logical write, device-full sinks, structured error payloads, an output above 64 KiB, every one of the last six write calls refused (Ok(0), error, short-then-refused), output lengths sweeping past the multiples of 4..64 KiB; command line builds writing to a pipe whose reader went away or to /dev/full must not exit 0.",
    "Interrupted is a retry request (C07); behaviour after an I/O error is not judged.", "DESIGN.md#c11"),
  "C12": (True, "exploration", "hooked premise (cache eviction counter H2) + independent trie/minimal-DFA oracle on the decoded node graph",
    "For every build: nodes <= trie nodes; when the hooked counters show no eviction: no two reachable nodes share a signature and sets have exactly the minimal DFA's state count; corpora must realise > 50% of achievable sharing (measured 0.78-0.96); also builders filled side by side on one thread, and 700-2500 distinct wide nodes resident in the cache and then repeated.",
